@@ -1,4 +1,4 @@
-(* GENEQ lemma=gen_JALR_init_eq requires=gen_JALR_init_rd,gen_JALR_init_rs1,gen_JALR_init_imm properties=C01,C02 *)
+(* GENEQ lemma=gen_JALR_init_eq requires=gen_JALR_init_rd,gen_JALR_init_rs1,gen_JALR_init_imm properties=C01 *)
 From ArchSimGenEq Require Import GenEqTac.
 From ArchSim Require Import Model.RV Model.RVSplit.
 From ArchSimGen Require Import GenRVTypes GenRV.
